@@ -54,6 +54,10 @@ Describe == /\ Free # {}
             /\ heap' = [heap EXCEPT ![NewRef] = meta] /\ kind' = [kind EXCEPT ![NewRef] = "metadata"]
             /\ last' = [op |-> "read", how |-> "metadata", ref |-> NewRef, id |-> -1]
             /\ UNCHANGED <<store, meta>>
+\* the bucket is deleted and created again under the same id: it is empty, later insertions behave as on a new bucket
+Recreate == /\ store' = {}
+            /\ last' = [op |-> "recreate"]
+            /\ UNCHANGED <<meta, heap, kind>>
 \* the caller mutates one of its objects (any of them, at any depth): only the heap changes
 CallerMutate(o, v) == /\ kind[o] # "free" /\ heap[o] # v
                       /\ heap' = [heap EXCEPT ![o] = v]
@@ -64,6 +68,7 @@ Next == \/ \E v \in Vals, i \in Ids : Insert(v, i)
         \/ \E v, w \in Vals, i, j \in Ids : Insert2(v, w, i, j)
         \/ \E e \in store : Lookup(e) \/ Listed(e)
         \/ Describe
+        \/ Recreate
         \/ \E o \in Refs, v \in Vals : CallerMutate(o, v)
 Spec == Init /\ [][Next]_vars
 
@@ -81,6 +86,7 @@ GenNext == \/ \E v \in {Pick(Vals)}, i \in {Pick(Ids \ LiveIds)} : Insert(v, i)
            \/ (store # {} /\ \E e \in {Pick(store)} : Lookup(e))
            \/ (store # {} /\ \E e \in {Pick(store)} : Listed(e))
            \/ Describe
+           \/ (store # {} /\ Recreate)
            \/ \E o \in {Pick({r \in Refs : kind[r] # "free"} \cup {0})}, v \in {Pick(Vals)} : o # 0 /\ CallerMutate(o, v)
            \/ \E o \in {Pick({r \in Refs : kind[r] = "passed"} \cup {0})}, v \in {Pick(Vals)} : o # 0 /\ CallerMutate(o, v)
 GenSpec == Init /\ [][GenNext]_vars
